@@ -214,7 +214,9 @@ def predict(spec):
         for i, j, _ in spec["bonds"]:
             if seg[i] != seg[j] and at[i][0] == at[j][0] and at[i][1] == at[j][1] \
                     and not ((at[i][4] and not is_water(at[i][3])) or (at[j][4] and not is_water(at[j][3]))):
-                classes.add("bond_same_res_id_other_ins_code")
+                # different residues, same chain and number: told apart by the insertion code (finding
+                # class) or not at all (ill-formed input produced by a limit mutation: never generated)
+                classes.add("bond_same_res_id_other_ins_code" if at[i][2] != at[j][2] else "_illformed_residue_bond")
     if spec.get("read_bonds") and spec["atom_id"] is not None and min(spec["atom_id"]) < 0:
         classes.add("negative_atom_id_with_bonds")
     return {"refuse": refuse, "wrap": sorted(set(wrap)), "decline": decline, "classes": classes}
@@ -223,11 +225,11 @@ def predict(spec):
 def quarantine(ctx, spec):
     """Remove the input classes of open known findings from a generated spec."""
     pr = predict(spec)
-    todo = [c for c in pr["classes"] if not ctx.allowed(c)]
+    todo = [c for c in pr["classes"] if c.startswith("_") or not ctx.allowed(c)]
     if not todo:
         return
     for c in todo:
-        ctx.note("quarantined:" + c)
+        ctx.note(("quarantined:" if not c.startswith("_") else "excluded:") + c)
     if "round_up_extra_column" in todo:
         for model in spec["coord"]:
             for xyz in model:
@@ -239,6 +241,8 @@ def quarantine(ctx, spec):
         for key in ("b_factor", "occupancy"):
             if spec[key] is not None:
                 spec[key] = [(math.trunc(v * 10) / 10 if S.round_edge(v, 2, 6) else v) for v in spec[key]]
+    used = {a[0] for a in spec["atoms"]}
+    free = [c for c in G.CHAINCH if c not in used][0]      # keeps (chain,res_id,ins_code) unique per residue
     for a in spec["atoms"]:
         if "ins_code_width" in todo:
             a[2] = a[2][:1]
@@ -247,16 +251,21 @@ def quarantine(ctx, spec):
         if "negative_id_width" in todo and a[1] < -999:
             a[1] = -999
         if "empty_chain_id" in todo and a[0] == "":
-            a[0] = "q"
+            a[0] = free
     if "negative_id_width" in todo and spec["atom_id"] is not None:
         spec["atom_id"] = [max(v, -9999) for v in spec["atom_id"]]
     if "box_small_component" in todo:
         spec["box"] = None
-    if "bond_same_res_id_other_ins_code" in todo and spec["bonds"]:
+    if spec["bonds"] and ("bond_same_res_id_other_ins_code" in todo or "_illformed_residue_bond" in todo):
         at = spec["atoms"]
         seg = S.segment([a[0] for a in at], [a[1] for a in at], [a[2] for a in at], [a[3] for a in at])
-        spec["bonds"] = [b for b in spec["bonds"]
-                         if not (seg[b[0]] != seg[b[1]] and at[b[0]][0] == at[b[1]][0] and at[b[0]][1] == at[b[1]][1])]
+
+        def drop(b):
+            i, j = b[0], b[1]
+            if not (seg[i] != seg[j] and at[i][0] == at[j][0] and at[i][1] == at[j][1]):
+                return False
+            return ("bond_same_res_id_other_ins_code" in todo) if at[i][2] != at[j][2] else True
+        spec["bonds"] = [b for b in spec["bonds"] if not drop(b)]
     if "negative_atom_id_with_bonds" in todo:
         spec["read_bonds"] = False
 
@@ -472,7 +481,7 @@ def compare_read(ctx, spec, got, wraps, model=None, with_bonds=False, fields=())
         ctx.fail("roundtrip_coord", "coord shape/dtype %s %s, expected %s float32" % (c.shape, got.coord.dtype, want.shape))
     d = np.abs(c - want)
     if not (d <= 0.001).all():
-        w = np.unravel_index(int(np.nanargmax(np.where(np.isnan(d), np.inf, d))), d.shape)
+        w = tuple(int(x) for x in np.unravel_index(int(np.nanargmax(np.where(np.isnan(d), np.inf, d))), d.shape))
         ctx.fail("roundtrip_coord", "coordinate %s read back as %r, written %r (tolerance 0.001)" % (w, float(c[w]), float(want[w])))
     # box
     if spec["box"] is None:
